@@ -182,28 +182,28 @@ def lookupImpl (table : List (Bytes × FilterImpl)) (name : Bytes) : Option Filt
 
 /-- `convertCallArguments`: one `Arg` per parameter. Precondition (checked by the caller):
 `args.length ≤ params.length`. -/
-def convertArgs : List Param → List GoVal → Res Cause (List Arg)
-  | [], _ => .ok []
-  | .fn _ :: ps, [] => (convertArgs ps []).bind fun r => .ok (.fn none :: r)
-  | .val t :: ps, [] => (convertArgs ps []).bind fun r => .ok (.val t.zero :: r)
-  | .fn t :: ps, a :: as => (convertArgs ps as).bind fun r => .ok (.fn (some (convert a t)) :: r)
-  | .val t :: ps, a :: as =>
+def convertArgs : List Param → List GoVal → (budget : Int := 1000000) → Res Cause (List Arg)
+  | [], _, _ => .ok []
+  | .fn _ :: ps, [], n => (convertArgs ps [] n).bind fun r => .ok (.fn none :: r)
+  | .val t :: ps, [], n => (convertArgs ps [] n).bind fun r => .ok (.val t.zero :: r)
+  | .fn t :: ps, a :: as, n => (convertArgs ps as n).bind fun r => .ok (.fn (some (convert a t n)) :: r)
+  | .val t :: ps, a :: as, n =>
     match a with
-    | .nil => (convertArgs ps as).bind fun r => .ok (.val t.zero :: r)
-    | _ => (convert a t).bind fun c => (convertArgs ps as).bind fun r => .ok (.val c :: r)
+    | .nil => (convertArgs ps as n).bind fun r => .ok (.val t.zero :: r)
+    | _ => (convert a t n).bind fun c => (convertArgs ps as n).bind fun r => .ok (.val c :: r)
 
 /-- `ApplyFilter`'s result conversion -/
 def bytesToString : GoVal → GoVal
   | .bytes s => .str s
   | v => v
 
-def applyFilter (impls : Bytes → Option FilterImpl) (name : Bytes) (recv : GoVal) (args : List GoVal) :
-    Res Cause GoVal :=
+def applyFilter (impls : Bytes → Option FilterImpl) (name : Bytes) (recv : GoVal) (args : List GoVal)
+    (budget : Int := 1000000) : Res Cause GoVal :=
   match lookupSig name with
   | none => .err (.undefinedFilter name)
   | some sg =>
     if (recv :: args).length > sg.params.length then .err (.filterErr name .parity) else
-    (convertArgs sg.params (recv :: args)).bind fun cargs =>
+    (convertArgs sg.params (recv :: args) budget).bind fun cargs =>
     match impls name with
     | none => .unmodelled "filter body not modelled"
     | some f =>
@@ -224,9 +224,9 @@ def viaValue : GoVal → GoVal
   | v => v
 
 /-- the expression `x | name: a0, a1, …` evaluated with the variables bound to `recv`, `args` -/
-def evalFilter (impls : Bytes → Option FilterImpl) (name : Bytes) (recv : GoVal) (args : List GoVal) :
-    Res Cause GoVal :=
-  (applyFilter impls name (viaValue recv) (args.map viaValue)).bind fun v => .ok (viaValue v)
+def evalFilter (impls : Bytes → Option FilterImpl) (name : Bytes) (recv : GoVal) (args : List GoVal)
+    (budget : Int := 1000000) : Res Cause GoVal :=
+  (applyFilter impls name (viaValue recv) (args.map viaValue) budget).bind fun v => .ok (viaValue v)
 
 /-! ## Canonical text of a cause (the `err <kind>` field of the line protocol; names omitted) -/
 
